@@ -27,6 +27,9 @@ def run(ctx):
     names = sorted(set(pool) | {"error"})
     agg = run_family("C05chain", progs, names, dev=dev, invariants=INVS, perms=(0,), timeout=900)
     ctx.add_family(agg)
+    progs, pool = F.c05_sametext(ctx.tier, rnd)
+    agg = run_family("C05same", progs, sorted(set(pool) | {"error"}), dev=dev, invariants=INVS, perms=(0,), timeout=900)
+    ctx.add_family(agg)
     progs, pool = F.c05_siblings(ctx.tier, rnd)
     agg = run_family("C05sib", progs, sorted(set(pool) | {"error"}), dev=dev, invariants=INVS, perms=(0, 1), timeout=900)
     ctx.add_family(agg)
